@@ -3,6 +3,7 @@ package corpus
 import (
 	"encoding/json"
 	"fmt"
+	"reflect"
 	"time"
 
 	astisub "github.com/asticode/go-astisub"
@@ -61,14 +62,51 @@ type LineItemSpec struct {
 	Attrs   *astisub.StyleAttributes `json:"attrs,omitempty"`
 }
 
+// cloneAttrs deep-copies a StyleAttributes value: no pointer is shared between the spec and a build or
+// between two builds (a writer that writes through a pointer must not be able to change the spec), while
+// aliasing *inside* the value (SRTColor and TTMLColor sharing one *string, as the readers create it) is kept.
 func cloneAttrs(a *astisub.StyleAttributes) *astisub.StyleAttributes {
 	if a == nil {
 		return nil
 	}
-	c := *a
-	c.WebVTTStyles = append([]string(nil), a.WebVTTStyles...)
-	c.WebVTTTags = append([]astisub.WebVTTTag(nil), a.WebVTTTags...)
-	return &c
+	memo := map[uintptr]reflect.Value{}
+	out := deepCopy(reflect.ValueOf(a), memo)
+	return out.Interface().(*astisub.StyleAttributes)
+}
+
+func deepCopy(v reflect.Value, memo map[uintptr]reflect.Value) reflect.Value {
+	switch v.Kind() {
+	case reflect.Ptr:
+		if v.IsNil() {
+			return v
+		}
+		if c, ok := memo[v.Pointer()]; ok && c.Type() == v.Type() {
+			return c
+		}
+		c := reflect.New(v.Type().Elem())
+		memo[v.Pointer()] = c
+		c.Elem().Set(deepCopy(v.Elem(), memo))
+		return c
+	case reflect.Struct:
+		c := reflect.New(v.Type()).Elem()
+		c.Set(v)
+		for i := 0; i < v.NumField(); i++ {
+			if c.Field(i).CanSet() {
+				c.Field(i).Set(deepCopy(v.Field(i), memo))
+			}
+		}
+		return c
+	case reflect.Slice:
+		if v.IsNil() {
+			return v
+		}
+		c := reflect.MakeSlice(v.Type(), v.Len(), v.Len())
+		for i := 0; i < v.Len(); i++ {
+			c.Index(i).Set(deepCopy(v.Index(i), memo))
+		}
+		return c
+	}
+	return v
 }
 
 // Build materialises the list. Every call returns a fresh object graph.
@@ -395,6 +433,9 @@ func GenList(r *prng.R, idx int) ListSpec {
 		}
 		if r.Bool(0.2) {
 			it.Comments = []string{asciiSentence(r, 1, 4)}
+			if r.Bool(0.5) {
+				it.Comments = append(it.Comments, "  padded "+asciiSentence(r, 1, 2)+" ")
+			}
 		}
 		nl := r.Range(1, 3)
 		for j := 0; j < nl; j++ {
